@@ -399,7 +399,7 @@ func judgeLogStructure(c *Ctx, path, lock string, ops []fsOp, wit map[string]int
 }
 
 func checkC16(c *Ctx) {
-	c.Rule = "many short concurrent histories on the real FileStorage: W in {1,2,4,8,16} writer goroutines with separate handles plus readers, and W separate OS processes (verifd worker fswriter, CLOCK_MONOTONIC timestamps); message sizes empty, 10 B, 4 KiB, JSON line just below/above 64 KiB, 200 KiB, line just below 1 MiB; after quiescence a structural check through a fresh handle and the raw file (exactly-once, offset == position, earlier reads are runs of the final log, suffix reads, ignore lists by id and offset) and a porcupine linearizability check of the recorded history against the sequential log model. distinct = distinct observed interleavings (order of appends/reads by call time) over the (mode, writers, size class) configurations"
+	c.Rule = "many short concurrent histories on the real FileStorage: W in {1,2,4,8,16} writer goroutines with separate handles plus readers, and W separate OS processes (verifd worker fswriter, CLOCK_MONOTONIC timestamps); message sizes empty, 10 B, 4 KiB, JSON line just below/above 64 KiB, 200 KiB, line just below 1 MiB; after quiescence a structural check through a fresh handle and the raw file (exactly-once, offset == position, earlier reads are runs of the final log, suffix reads, ignore lists by id and offset) and a porcupine linearizability check of the recorded history against the sequential log model. Ignore lists are built by 1-4 IgnoreMessages calls mixing ids and offsets. distinct = distinct observed interleavings (order of appends/reads by call time) over the (mode, writers, size class) configurations"
 	c.Assumptions = []string{"porcupine v1.3.0 as linearizability checker (60 s cap => inconclusive)", "timestamps from CLOCK_MONOTONIC, shared by all processes of the machine"}
 	type cfg struct {
 		mode    string
